@@ -137,6 +137,26 @@ var rFinish = &Rule{
 				}
 			})
 		}
+		// ... and the functions that call it (the emission may follow the call)
+		isBad := map[*ssa.Function]bool{}
+		for _, f := range bad {
+			isBad[f] = true
+		}
+		for _, f := range p.HandFuncs() {
+			if f.Pkg != fi.Pkg || isBad[f] {
+				continue
+			}
+			sx.EachInstr(f, func(in ssa.Instruction) {
+				if call, ok := in.(*ssa.Call); ok && sx.Callee(call) != nil && isBad[sx.Callee(call)] && !isBad[f] {
+					for _, b0 := range bad {
+						if sx.Callee(call) == b0 && b0 != fi {
+							isBad[f] = true
+							bad = append(bad, f)
+						}
+					}
+				}
+			})
+		}
 		fmtState := p.ExtNamed("fmt", "State")
 		m := 0
 		for _, f := range bad {
@@ -423,5 +443,67 @@ var rPkgDomain = &Rule{
 			}
 		}
 		c.Min("returns computed from runtime.Caller", n, 1)
+	},
+}
+
+// ---------------------------------------------------------------------------
+// R-PREFIX-CUT
+
+var rPrefixCut = &Rule{
+	Name: "R-PREFIX-CUT",
+	Doc: "the prefix a wrapper encoder sends is never found by searching its own text from the front: in every registered encoder (and its helpers) the wire message does not depend on strings.Index*/Cut/Split*/Fields applied to the error's Error() text. " +
+		"A wrapper's own message may contain the separator itself (\"store 3: replica 7\"); only cutting the cause's text off the END (errbase's extractPrefix, strings.TrimSuffix) yields the prefix, and the decoder rebuilds 'prefix: cause' from what it receives",
+	Run: func(c *core.Ctx) {
+		n := 0
+		seenEnc := map[*ssa.Function]bool{}
+		for _, cp := range codecPairs(c) {
+			enc := cp.Enc
+			if enc == nil || enc.Blocks == nil || seenEnc[enc] {
+				continue
+			}
+			seenEnc[enc] = true
+			n++
+			reg := regionOf(enc)
+			var searches []*ssa.Call
+			reg.each(func(in ssa.Instruction) {
+				call, ok := in.(*ssa.Call)
+				if !ok {
+					return
+				}
+				f := sx.Callee(call)
+				if f == nil || load.FnPkg(f) == nil || load.FnPkg(f).Path() != "strings" {
+					return
+				}
+				switch f.Name() {
+				case "Index", "IndexByte", "IndexRune", "IndexAny", "Cut", "Split", "SplitN", "SplitAfter", "SplitAfterN", "Fields":
+				default:
+					return
+				}
+				// applied to an Error() text
+				onText := false
+				for _, a := range call.Call.Args {
+					if dependsOnCall(a, "Error", map[ssa.Value]bool{}, 0) {
+						onText = true
+					}
+				}
+				if onText {
+					searches = append(searches, call)
+				}
+			})
+			bad := ""
+			for _, r := range sx.Returns(enc) {
+				if len(r.Results) == 0 {
+					continue
+				}
+				for _, sc := range searches {
+					if dependsOnValue(reg.resolve(r.Results[0]), sc, map[ssa.Value]bool{}, 0) || dependsOnValue(r.Results[0], sc, map[ssa.Value]bool{}, 0) {
+						bad = load.FnName(sx.Callee(sc))
+					}
+				}
+			}
+			c.Check(bad == "", load.FnName(enc)+": how the wire message is cut out of the error's text", enc.Pos(), "not by a front search of the Error() text",
+				"the encoder finds the message it sends by "+bad+" over the error's own Error() text: a message that contains the separator itself is cut short, so the decoder rebuilds another text than the original (and an unknowing receiver shows another text)")
+		}
+		c.Min("registered encoders", n, 20)
 	},
 }
